@@ -110,6 +110,11 @@ type world struct {
 	calls      []callRec
 	callsByKey map[string]int
 	limCalls   int
+	// per participant: how many of its limiter / upstream calls are in progress right now, and in
+	// which of the two instruments one of its calls was answered with ITS context error
+	inLim    map[int]int
+	inLoad   map[int]int
+	ctxErrAt map[int]map[string]bool
 
 	dsGate  *gate           // gates Load of the datasources listed in gatedDS
 	limGate *gate           // gates the rate limiter
@@ -125,12 +130,65 @@ type world struct {
 }
 
 func newWorld() *world {
-	w := &world{callsByKey: map[string]int{}, dsGate: newGate(true), limGate: newGate(true), gatedDS: map[string]bool{"S": true, "S2": true, "M": true}, ds: map[string]*fakeDS{}}
+	w := &world{inLim: map[int]int{}, inLoad: map[int]int{}, ctxErrAt: map[int]map[string]bool{}, callsByKey: map[string]int{}, dsGate: newGate(true), limGate: newGate(true), gatedDS: map[string]bool{"S": true, "S2": true, "M": true}, ds: map[string]*fakeDS{}}
 	for _, id := range []string{"S", "S2", "T", "M"} {
 		w.ds[id] = &fakeDS{w: w, id: id}
 	}
 	w.limiter = &fakeLimiter{w: w}
 	return w
+}
+
+const (
+	stageLimiter = "rate-limit-prefetch"
+	stageFetch   = "subgraph-fetch"
+	stageNone    = "before-any-fetch"
+)
+
+func (w *world) enter(m map[int]int, pid int) {
+	w.mu.Lock()
+	m[pid]++
+	w.mu.Unlock()
+}
+
+// leave ends one in-progress call of pid; err is what the instrument answers.
+func (w *world) leave(m map[int]int, pid int, stage string, err error) {
+	w.mu.Lock()
+	m[pid]--
+	if err != nil && (errors.Is(err, context.Canceled) || errors.Is(err, context.DeadlineExceeded)) {
+		if w.ctxErrAt[pid] == nil {
+			w.ctxErrAt[pid] = map[string]bool{}
+		}
+		w.ctxErrAt[pid][stage] = true
+	}
+	w.mu.Unlock()
+}
+
+// whereIs: the instrument one of pid's calls is inside right now ("" if none).
+func (w *world) whereIs(pid int) string {
+	w.mu.Lock()
+	defer w.mu.Unlock()
+	switch {
+	case w.inLim[pid] > 0:
+		return stageLimiter
+	case w.inLoad[pid] > 0:
+		return stageFetch
+	}
+	return ""
+}
+
+// ctxErrorAt: the instrument that answered pid with pid's own context error. A limiter error
+// aborts the whole operation, so it takes precedence; stageNone: no instrument ever did, i.e. the
+// participant's work never got as far as failing in a fetch.
+func (w *world) ctxErrorAt(pid int) string {
+	w.mu.Lock()
+	defer w.mu.Unlock()
+	switch {
+	case w.ctxErrAt[pid][stageLimiter]:
+		return stageLimiter
+	case w.ctxErrAt[pid][stageFetch]:
+		return stageFetch
+	}
+	return stageNone
 }
 
 func upKey(ds string, input []byte, hv string) string {
@@ -153,7 +211,12 @@ type fakeDS struct {
 	id string
 }
 
-func (d *fakeDS) Load(ctx context.Context, headers http.Header, input []byte) ([]byte, error) {
+func (d *fakeDS) Load(ctx context.Context, headers http.Header, input []byte) (out []byte, err error) {
+	if _, solo := ctx.Value(soloKey{}).(*soloMode); !solo {
+		pid := pidFrom(ctx)
+		d.w.enter(d.w.inLoad, pid)
+		defer func() { d.w.leave(d.w.inLoad, pid, stageFetch, err) }()
+	}
 	hv := headers.Get(tenantHeader)
 	var in fetchInput
 	if err := json.Unmarshal(input, &in); err != nil {
@@ -214,11 +277,14 @@ func (d *fakeDS) LoadWithFiles(ctx context.Context, headers http.Header, input [
 // with that key hits, alone or not) and fails with the caller's context error when that ends.
 type fakeLimiter struct{ w *world }
 
-func (l *fakeLimiter) RateLimitPreFetch(ctx *resolve.Context, info *resolve.FetchInfo, input json.RawMessage) (*resolve.RateLimitDeny, error) {
+func (l *fakeLimiter) RateLimitPreFetch(ctx *resolve.Context, info *resolve.FetchInfo, input json.RawMessage) (deny *resolve.RateLimitDeny, err error) {
 	var in fetchInput
 	_ = json.Unmarshal(input, &in)
 	c := ctx.Context()
 	if _, ok := c.Value(soloKey{}).(*soloMode); !ok {
+		pid := pidFrom(c)
+		l.w.enter(l.w.inLim, pid)
+		defer func() { l.w.leave(l.w.inLim, pid, stageLimiter, err) }()
 		l.w.mu.Lock()
 		l.w.limCalls++
 		l.w.mu.Unlock()
